@@ -18,6 +18,10 @@
 //!        convert_entry with the codec's SymbolConverter (zone-file escapes)
 //!   saltstr|saltscan|hashstr|hashscan <text>, saltdisp|hashdisp <octets>
 //!        Nsec3Salt / OwnerHash FromStr, scan (IterScanner), Display
+//!   encw64|encw16 <room> <octets>    display into a fmt::Write taking <room> chars => Ok|Err <written>
+//!   soct|scstr|sstr|sascii|ssym|smark <token>, scent|sesym <token>..   the other
+//!        IterScanner methods (scan_octets, scan_charstr, scan_string, scan_ascii_str,
+//!        scan_symbols, scan_opt_unknown_marker, scan_charstr_entry, scan_entry_symbols)
 //!   conv64|conv32|conv16 <text> <text>..=> Ok <octets> | Err <Illegal|Trailing|Short>
 //!        the scanner's SymbolConverter fed with the chars of every chunk
 //!        followed by EndOfToken, then process_tail
@@ -512,6 +516,208 @@ fn escape_some(r: &mut Rng, s: &[char]) -> Vec<char> {
         _ => {}
     }
     o
+}
+
+// ------------------------- display into a writer that runs out of room (fmt::Write errors)
+
+struct LimW { s: String, room: usize }
+impl std::fmt::Write for LimW {
+    fn write_str(&mut self, x: &str) -> std::fmt::Result {
+        let n = x.chars().count();
+        if n <= self.room { self.s.push_str(x); self.room -= n; Ok(()) } else { Err(std::fmt::Error) }
+    }
+}
+
+fn t2_encw(out: &mut Out, c: Codec, room: usize, b: &[u8]) {
+    let case = format!("encw{} {} {}", c.tag(), room, hex(b));
+    out.begin(&case);
+    let bb = b.to_vec();
+    let r = catch(move || {
+        let mut w = LimW { s: String::new(), room };
+        let res = match c { B64 => base64::display(&bb, &mut w), B32 => base32::display_hex(&bb, &mut w), B16 => base16::display(&bb, &mut w) };
+        (res.is_ok(), w.s)
+    });
+    let p = c.pfx();
+    match r {
+        Err(e) => { if c != B32 { out.case(&case, "Panic", true, &format!("encw{}", c.tag())); } chk(out, false, &format!("{}_display_write_panics", p), &case, &e); }
+        Ok((ok, written)) => {
+            if c != B32 {
+                let obs = format!("{} {}", if ok { "Ok" } else { "Err" }, cps(&written.chars().collect::<Vec<_>>()));
+                out.case(&case, &obs, !b.is_empty(), &format!("encw{}", c.tag()));
+            } else { out.oracle_case(&case, !b.is_empty(), "encw32_oracle_only"); }
+            let full = ref_encode(c, b);
+            let unit = if c == B16 { 2 } else { 1 };
+            let fit = if full.len() <= room { full.len() } else { room / unit * unit };
+            // the error is propagated at the first write that fails; what was written is the text so far
+            chk(out, ok == (full.len() <= room) && written == full[..fit], &format!("{}_display_write_error", p), &case,
+                &format!("ok={} written {} of {}", ok, written, full));
+        }
+    }
+}
+
+// --------------------------------------- the other token-reading methods of IterScanner
+
+fn sym_obs(y: &Symbol) -> String {
+    match y { Symbol::Char(c) => format!("c{:x}", *c as u32), Symbol::SimpleEscape(c) => format!("s{:x}", c), Symbol::DecimalEscape(c) => format!("d{:x}", c) }
+}
+
+/// Independent expectation for a token: (symbols as octets via into_octet rules, all ok)
+fn ref_token_octets(s: &[char]) -> Option<Vec<u8>> {
+    if !escapes_ok(s) { return None; }
+    let mut o = vec![]; let mut i = 0;
+    while i < s.len() {
+        if s[i] == '\\' {
+            if s[i + 1].is_ascii_digit() { o.push(((s[i + 1] as u32 - 48) * 100 + (s[i + 2] as u32 - 48) * 10 + (s[i + 3] as u32 - 48)) as u8); i += 4; }
+            else { o.push(s[i + 1] as u8); i += 2; }
+        } else {
+            let c = s[i] as u32; if !(0x20..=0x7e).contains(&c) { return None; }
+            o.push(c as u8); i += 1;
+        }
+    }
+    Some(o)
+}
+/// Independent expectation for scan_string: plain and simply-escaped characters, no decimal escapes
+fn ref_token_string(s: &[char]) -> Option<String> {
+    if !escapes_ok(s) { return None; }
+    let mut o = String::new(); let mut i = 0;
+    while i < s.len() {
+        if s[i] == '\\' { if s[i + 1].is_ascii_digit() { return None; } o.push(s[i + 1]); i += 2; }
+        else { o.push(s[i]); i += 1; }
+    }
+    Some(o)
+}
+
+fn t2_scan_methods(out: &mut Out, tokens: &[Vec<char>]) {
+    use domain::base::scan::Scanner;
+    let toks: Vec<String> = tokens.iter().map(|t| text_of(t)).collect();
+    let first: Vec<char> = tokens.first().cloned().unwrap_or_default();
+    let all_ok = tokens.iter().all(|t| escapes_ok(t));
+    macro_rules! scanner { () => { IterScanner::<_, Vec<u8>>::new(toks.iter().map(|x| x.as_str())) } }
+    macro_rules! run { ($kind:expr, $args:expr, $body:expr, $show:expr, $wf:expr, $expect:expr) => {{
+        let case = format!("{} {}", $kind, $args);
+        out.begin(&case);
+        let r = catch_mut(|| $body);
+        let obs = match &r { Err(_) => "Panic".to_string(), Ok(Ok(v)) => format!("Ok {}", $show(v)), Ok(Err(k)) => format!("Err {}", k) };
+        out.case(&case, &obs, true, $kind);
+        match &r {
+            Err(e) => chk(out, false, &format!("iter_scanner_{}_panics", $kind), &case, e),
+            Ok(r) => {
+                if !$wf { chk(out, r.is_err(), "iter_scanner_bad_escape_truncates", &case, &obs); }
+                let exp: Option<Option<String>> = $expect;
+                if let Some(e) = exp { chk(out, r.as_ref().ok().map(|v| $show(v)) == e, &format!("iter_scanner_{}_value", $kind), &case, &format!("{} vs expected {:?}", obs, e)); }
+            }
+        }
+    }}; }
+    let one = cps(&first);
+    let mut many = String::new();
+    for t in tokens { if !many.is_empty() { many.push(' '); } many.push_str(&cps(t)); }
+    if tokens.is_empty() { return; }
+    let w1 = escapes_ok(&first);
+    run!("soct", one, scanner!().scan_octets().map_err(|e| scan_kind2(&e.to_string())), |v: &Vec<u8>| hex(v), w1,
+         Some(ref_token_octets(&first).map(|v| hex(&v))));
+    run!("scstr", one, scanner!().scan_charstr().map(|c| c.as_slice().to_vec()).map_err(|e| scan_kind2(&e.to_string())), |v: &Vec<u8>| hex(v), w1,
+         Some(ref_token_octets(&first).filter(|v| v.len() <= 255).map(|v| hex(&v))));
+    run!("sstr", one, scanner!().scan_string().map(|c| c.as_str().as_bytes().to_vec()).map_err(|e| scan_kind2(&e.to_string())), |v: &Vec<u8>| hex(v), w1,
+         Some(ref_token_string(&first).map(|v| hex(v.as_bytes()))));
+    run!("sascii", one, scanner!().scan_ascii_str(|x| Ok(x.as_bytes().to_vec())).map_err(|e| scan_kind2(&e.to_string())), |v: &Vec<u8>| hex(v), w1,
+         Some(ref_token_string(&first).filter(|v| v.is_ascii()).map(|v| hex(v.as_bytes()))));
+    run!("ssym", one, { let mut l: Vec<String> = vec![]; scanner!().scan_symbols(|y| { l.push(sym_obs(&y)); Ok(()) }).map(|_| l).map_err(|e| scan_kind2(&e.to_string())) },
+         |v: &Vec<String>| if v.is_empty() { "-".to_string() } else { v.join(",") }, w1, None);
+    run!("smark", one, Ok::<bool, &'static str>(scanner!().scan_opt_unknown_marker().unwrap_or(false)), |v: &bool| v.to_string(), true,
+         Some(Some((text_of(&first) == "\\#").to_string())));
+    run!("scent", many, scanner!().scan_charstr_entry().map_err(|e| scan_kind2(&e.to_string())), |v: &Vec<u8>| hex(v), all_ok, {
+         let parts: Option<Vec<Vec<u8>>> = tokens.iter().map(|t| ref_token_octets(t).filter(|v| v.len() <= 255)).collect();
+         Some(parts.map(|ps| { let mut o = vec![]; for p in ps { o.push(p.len() as u8); o.extend(p); } hex(&o) })) });
+    run!("sesym", many, { let mut l: Vec<String> = vec![]; scanner!().scan_entry_symbols(|y| { l.push(match y { EntrySymbol::Symbol(y) => sym_obs(&y), EntrySymbol::EndOfToken => "E".to_string() }); Ok(()) }).map(|_| l).map_err(|e| scan_kind2(&e.to_string())) },
+         |v: &Vec<String>| if v.is_empty() { "-".to_string() } else { v.join(",") }, all_ok, None);
+    // scan_name (oracle only; the name syntax is C03's): the str scanner and
+    // FromStr must agree, and malformed escapes must be refused
+    {
+        let case = format!("sname {}", one);
+        out.begin(&case);
+        out.oracle_case(&case, true, "sname_oracle_only");
+        let r = catch_mut(|| scanner!().scan_name().map(|n| n.as_slice().to_vec()).map_err(|e| e.to_string()));
+        let t = text_of(&first);
+        let f = catch(move || domain::base::name::Name::<Vec<u8>>::from_str(&t).map(|n| n.as_slice().to_vec()).map_err(|e| e.to_string()));
+        match (&r, &f) {
+            (Ok(a), Ok(b)) => {
+                if !w1 { chk(out, a.is_err(), "iter_scanner_bad_escape_truncates", &case, &format!("{:?}", a)); }
+                chk(out, a.as_ref().ok() == b.as_ref().ok(), "iter_scanner_scan_name_differs_from_str", &case, &format!("{:?} vs from_str {:?}", a, b));
+            }
+            _ => chk(out, false, "iter_scanner_sname_panics", &case, ""),
+        }
+    }
+}
+
+fn scan_kind2(msg: &str) -> &'static str {
+    let m = msg.to_ascii_lowercase();
+    if m.contains("bad symbol") { "BadSymbol" } else if m.contains("non-ascii") { "NonAscii" } else if m.contains("short buffer") { "ShortBuf" } else { scan_kind(msg) }
+}
+
+// ------------------------------------------------ the serde submodules (oracle only)
+
+macro_rules! serde_wrap { ($name:ident, $m:path) => {
+    struct $name(Vec<u8>);
+    impl serde::Serialize for $name {
+        fn serialize<S: serde::Serializer>(&self, s: S) -> Result<S::Ok, S::Error> { { use $m as m; m::serialize(&self.0, s) } }
+    }
+    impl<'de> serde::Deserialize<'de> for $name {
+        fn deserialize<D: serde::Deserializer<'de>>(d: D) -> Result<Self, D::Error> { { use $m as m; m::deserialize(d).map($name) } }
+    }
+}; }
+serde_wrap!(S64, domain::utils::base64::serde);
+serde_wrap!(S32, domain::utils::base32::serde);
+serde_wrap!(S16, domain::utils::base16::serde);
+
+fn serde_to_json(c: Codec, b: &[u8]) -> Result<Result<String, String>, String> {
+    let b = b.to_vec();
+    catch(move || match c {
+        B64 => serde_json::to_string(&S64(b)).map_err(|e| e.to_string()),
+        B32 => serde_json::to_string(&S32(b)).map_err(|e| e.to_string()),
+        B16 => serde_json::to_string(&S16(b)).map_err(|e| e.to_string()),
+    })
+}
+fn serde_from_json(c: Codec, j: &str) -> Result<Result<Vec<u8>, String>, String> {
+    let j = j.to_string();
+    catch(move || match c {
+        B64 => serde_json::from_str::<S64>(&j).map(|x| x.0).map_err(|e| e.to_string()),
+        B32 => serde_json::from_str::<S32>(&j).map(|x| x.0).map_err(|e| e.to_string()),
+        B16 => serde_json::from_str::<S16>(&j).map(|x| x.0).map_err(|e| e.to_string()),
+    })
+}
+
+/// human-readable serializer: the octets travel as the RFC 4648 text
+fn oracle_serde_octets(out: &mut Out, c: Codec, b: &[u8]) {
+    let case = format!("serde{} {}", c.tag(), hex(b));
+    out.begin(&case);
+    out.oracle_case(&case, !b.is_empty(), &format!("serde{}_oracle_only", c.tag()));
+    let p = c.pfx();
+    match serde_to_json(c, b) {
+        Err(e) => chk(out, false, &format!("{}_serde_panics", p), &case, &e),
+        Ok(j) => {
+            let want = format!("\"{}\"", ref_encode(c, b));
+            chk(out, j.as_deref() == Ok(want.as_str()), &format!("{}_serde_serialize", p), &case, &format!("{:?} vs {}", j, want));
+            if let Ok(j) = j {
+                match serde_from_json(c, &j) {
+                    Err(e) => chk(out, false, &format!("{}_serde_panics", p), &case, &e),
+                    Ok(back) => chk(out, back.as_deref() == Ok(b), &format!("{}_serde_roundtrip", p), &case, &format!("{:?}", back.map(|v| v.len()))),
+                }
+            }
+        }
+    }
+}
+/// deserializing a JSON string accepts exactly what `decode` accepts
+fn oracle_serde_text(out: &mut Out, c: Codec, s: &[char]) {
+    let case = format!("serdetext{} {}", c.tag(), cps(s));
+    out.begin(&case);
+    out.oracle_case(&case, !s.is_empty(), &format!("serdetext{}_oracle_only", c.tag()));
+    let p = c.pfx();
+    let j = serde_json::to_string(&text_of(s)).unwrap();
+    let want = ref_decode(c, s);
+    match serde_from_json(c, &j) {
+        Err(e) => chk(out, false, &format!("{}_serde_panics", p), &case, &e),
+        Ok(r) => chk(out, r.as_ref().ok() == want.as_ref(), &format!("{}_serde_deserialize", p), &case, &format!("{:?} vs reference {:?}", r, want)),
+    }
 }
 
 // ------------------------------------- independent RFC 4648 reference (bits)
@@ -1053,6 +1259,57 @@ fn main() {
         for t in ts {
             if want!() { t2_scan(&mut out, c, &[chars(t)], false); }
             if want!() { t2_scan(&mut out, c, &[chars(t), chars(t)], true); }
+        }
+    }
+    // ---- display into writers with too little room (every room up to the full length)
+    for c in codecs {
+        for n in 0..=7usize {
+            let b = r.bytes(n);
+            let full = ref_encode(c, &b).len();
+            for room in 0..=full + 1 { if want!() { t2_encw(&mut out, c, room, &b); } }
+        }
+        for _ in 0..(if a.thorough { 3000 } else { 300 } * a.scale) {
+            let n = r.below(40) as usize; let b = r.bytes(n); let room = r.below(70) as usize;
+            if want!() { t2_encw(&mut out, c, room, &b); }
+        }
+    }
+    // ---- the other IterScanner methods: printable text, escapes (valid and malformed), limits
+    {
+        let printable: Vec<char> = (0x20u8..=0x7e).map(|x| x as char).collect();
+        let fixed: Vec<Vec<&str>> = vec![vec![""], vec!["abc"], vec!["a\\.b"], vec!["a\\046b"], vec!["abc\\"], vec!["ab\\9"], vec!["ab\\256"], vec!["ab\\25x"],
+            vec!["\\#"], vec!["\\#", "2", "abcd"], vec!["\u{e9}"], vec!["a\u{e9}b"], vec!["a\\\u{e9}"], vec!["a b"], vec!["\\032"], vec!["\\000\\255"], vec!["tab\t"],
+            vec!["foo", "bar\\", "baz"], vec!["foo", "", "bar"], vec!["www.example.com."], vec!["www.exa\\mple.com"], vec!["www.example.com\\"], vec!["a..b"], vec!["."], vec!["\\."]];
+        for f in &fixed { let t: Vec<Vec<char>> = f.iter().map(|x| chars(x)).collect(); if want!() { t2_scan_methods(&mut out, &t); } }
+        for n in [254usize, 255, 256, 257, 300] {
+            let t: Vec<char> = (0..n).map(|i| printable[(i * 7) % printable.len()]).filter(|c| *c != '\\').collect();
+            let mut t = t; while t.len() < n { t.push('x'); }
+            if want!() { t2_scan_methods(&mut out, &[t.clone()]); }
+            if want!() { t2_scan_methods(&mut out, &[chars("ab"), t.clone(), chars("c")]); }
+            // all of it as decimal escapes
+            let e: Vec<char> = (0..n).flat_map(|i| format!("\\{:03}", (i * 3) % 256).chars().collect::<Vec<_>>()).collect();
+            if want!() { t2_scan_methods(&mut out, &[e]); }
+        }
+        for i in 0..(if a.thorough { 8000 } else { 800 } * a.scale) {
+            let k = r.below(4) as usize + 1;
+            let mut toks: Vec<Vec<char>> = vec![];
+            for _ in 0..k {
+                let n = r.below(12) as usize;
+                let t: Vec<char> = (0..n).map(|_| match r.below(14) { 0 => *r.pick(ODD), 1 => '.', _ => *r.pick(&printable) }).filter(|c| *c != '\\').collect();
+                toks.push(if i % 2 == 0 { escape_some(&mut r, &t) } else { t });
+            }
+            if want!() { t2_scan_methods(&mut out, &toks); }
+        }
+    }
+    // ---- serde helpers (human-readable serializer): octets of every small length, random texts
+    for c in codecs {
+        let al = alphabet(c);
+        let nb = neighbours(c);
+        for n in 0..=16usize { let b = r.bytes(n); if want!() { oracle_serde_octets(&mut out, c, &b); } }
+        for _ in 0..(if a.thorough { 3000 } else { 300 } * a.scale) {
+            let n = r.below(60) as usize; let b = r.bytes(n);
+            if want!() { oracle_serde_octets(&mut out, c, &b); }
+            let s = rand_text(&mut r, c, &al, &nb);
+            if want!() { oracle_serde_text(&mut out, c, &s); }
         }
     }
     // ---- random texts: decode, push API, random chunkings through the converter
